@@ -191,6 +191,10 @@ func c15(w *core.World, r *core.Report) {
 	ruleElectionKey(w, r)
 	r.Rule("R15.8", "the identity an instance campaigns with is the address it advertises to its peers", 1)
 	ruleElectionIdentity(w, r)
+	r.Rule("R15.11", "every instance runs the lease scripts against the same server: a stand-alone client is the connection to the configuration as given", 1)
+	ruleOneLeaseStore(w, r)
+	r.Rule("R15.10", "on the shared stand-alone connection a request and its reply are one critical section of the connection's guard", 1)
+	ruleRequestReplyAtomic(w, r)
 	r.Rule("R15.9", "the lease ttl reaches the election in the unit the scripts use it in (seconds)", 1)
 	ruleLeaseTtlUnit(w, r)
 
@@ -805,4 +809,144 @@ func ruleLeaseTtlUnit(w *core.World, r *core.Report) {
 		r.OK("lease-ttl-in-seconds", token.NoPos, "no Redis election configured in this build")
 	}
 	_ = n
+}
+
+// ---------------------------------------------------------------- R15.10 a request and its reply are one critical section
+
+// ruleRequestReplyAtomic: one instance shares a single stand-alone connection
+// among all its elections and its registry keep-alive. RedisConn.Do must hold the
+// connection's guard from before the request is written until its reply has been
+// read. Built from the exported SendAndFlush + Receive (each locking on its own)
+// the guard is free in between, two callers interleave and read each other's
+// replies: an instance is told "leader" for a lease another instance holds.
+func ruleRequestReplyAtomic(w *core.World, r *core.Report) {
+	f := fn(w, r, "(*pkg/redis/client/conn.RedisConn).Do")
+	if f == nil {
+		return
+	}
+	ls := core.Locksets(f)
+	writes := func(g *ssa.Function) bool { return false }
+	_ = writes
+	// the functions of the connection that touch the wire, and whether they take the guard themselves
+	wire := map[*ssa.Function]string{}
+	locks := map[*ssa.Function]bool{}
+	fs := w.FuncsIn("pkg/redis/client/conn")
+	for _, g := range fs {
+		if !strings.HasPrefix(core.FuncName(g), "(*pkg/redis/client/conn.RedisConn).") {
+			continue
+		}
+		for _, s := range core.Sites(g, false) {
+			if s.Instr.Parent() != g {
+				continue
+			}
+			switch {
+			case strings.Contains(s.Name, "proto.Writer).") || s.Name == "(*bufio.Writer).Flush":
+				wire[g] = "send"
+			case strings.Contains(s.Name, "proto.Reader).Read"):
+				wire[g] = "receive"
+			case s.Name == "(*sync.Mutex).Lock" || s.Name == "(*sync.RWMutex).Lock":
+				if fa, ok := s.Common().Args[0].(*ssa.FieldAddr); ok && core.FieldName(fa) == "guard" {
+					locks[g] = true
+				}
+			}
+		}
+	}
+	for changed := true; changed; {
+		changed = false
+		for _, g := range fs {
+			for _, s := range core.Sites(g, false) {
+				if s.Callee == nil || s.Instr.Parent() != g {
+					continue
+				}
+				if k, ok := wire[s.Callee]; ok && wire[g] == "" {
+					wire[g] = k
+					changed = true
+				}
+				if locks[s.Callee] && !locks[g] && strings.HasPrefix(core.FuncName(g), "(*pkg/redis/client/conn.RedisConn).") {
+					// reached only for reporting: a caller of a locking function
+				}
+			}
+		}
+	}
+	sends, recvs := 0, 0
+	bad := ""
+	var pos token.Pos = f.Pos()
+	for _, s := range core.Sites(f, false) {
+		if s.Callee == nil || s.Instr.Parent() != f {
+			continue
+		}
+		kind, isWire := wire[s.Callee]
+		if !isWire {
+			continue
+		}
+		if kind == "send" {
+			sends++
+		} else {
+			recvs++
+		}
+		held := ls[s.Instr.(ssa.Instruction)]["p:#0.guard"].Mode >= core.LockW
+		if !held {
+			bad, pos = "the "+kind+" step of Do runs without Do itself holding the connection's guard", s.Pos()
+		}
+		if locks[s.Callee] {
+			bad, pos = "the "+kind+" step of Do goes through "+s.Method+", which takes the guard for itself: the guard is free between the request and its reply, and callers that share the connection read each other's replies", s.Pos()
+		}
+	}
+	r.Check(bad == "" && sends > 0 && recvs > 0, "RedisConn.Do/request-reply-atomic", pos, "%s (send steps=%d, receive steps=%d)", bad, sends, recvs)
+}
+
+// ---------------------------------------------------------------- R15.11 every instance reaches the same lease store
+
+// ruleOneLeaseStore: with Redis leases, "at most one leader" holds only if all
+// instances run the compare-and-set scripts against the same server. The cluster
+// client of the command package is built with client.NewRedis from the input's
+// configuration; for a stand-alone configuration that must be a connection to
+// that configuration exactly as given (its Address()), attempted once, whose
+// failure is reported. A constructor that tries the listed addresses in turn
+// gives an instance that cannot reach the first server a lease store of its own:
+// the key is absent there, and it is told leader of every shard.
+func ruleOneLeaseStore(w *core.World, r *core.Report) {
+	f := fn(w, r, "pkg/redis/client.NewRedis")
+	if f == nil || len(f.Params) < 1 {
+		return
+	}
+	cfg := f.Params[0]
+	n := 0
+	for _, s := range core.SitesNamed(f, false, "pkg/redis/client/conn.NewRedisConn") {
+		if s.Instr.Parent() != f {
+			continue
+		}
+		n++
+		a := s.Common().Args
+		same := false
+		if len(a) >= 1 {
+			v := core.Unwrap(a[0])
+			if v == ssa.Value(cfg) {
+				same = true
+			} else if ld, ok := v.(*ssa.UnOp); ok && ld.Op == token.MUL {
+				// the parameter's spill: nothing but the parameter is ever stored into it, no field of it is written
+				if al, isA := ld.X.(*ssa.Alloc); isA {
+					sts := core.CellStores(al)
+					same = len(sts) == 1 && sts[0].Val == ssa.Value(cfg)
+					if refs := al.Referrers(); refs != nil {
+						for _, ref := range *refs {
+							if fa, isFa := ref.(*ssa.FieldAddr); isFa {
+								for _, r2 := range *fa.Referrers() {
+									if st, isSt := r2.(*ssa.Store); isSt && st.Addr == ssa.Value(fa) {
+										same = false
+									}
+								}
+							}
+						}
+					}
+				}
+			}
+		}
+		once := core.LoopHeadOf(s.Instr.Block()) == nil
+		reported := failureReturned(f, s)
+		r.Check(same && once && reported, "client.NewRedis/standalone-as-configured", s.Pos(), "a stand-alone client must be the connection to the configuration as given (unchanged: %v), attempted once (%v), with a failure returned (%v): a fall-back to another listed address gives an instance its own lease store", same, once, reported)
+	}
+	if n == 0 {
+		r.Fail("client.NewRedis/standalone-as-configured", f.Pos(), "no stand-alone connection is made")
+	}
 }
